@@ -351,6 +351,8 @@ def verify_contract(name, tier='quick', seed=0, repo=None, known=()):
                         b = min(b, 4.0)     # a sibling entry of the same clause already failed on this path
                     if bad_total[0] > 12:
                         b = min(b, 2.0)     # the contract already fails in many places: do not spend the budget on each
+                    if bad_total[0] > 30:
+                        b = 0.0             # ... and beyond 30 failures only the cheap steps (samples, ring) are tried
                     if any(re.search(k, ob.name) for k in known):
                         b = 0.0     # clause listed as a known finding: samples and ring only, no solver runs
                     v = discharge(ob, alg, p.strict_live(), b, tier)
